@@ -731,8 +731,9 @@ class OP4:
         cols : integer
             Number of columns in matrix.
         """
-        # Scan matrix by column
-        icol = 1
+        # Scan matrix by column (the trailing record is skipped as well,
+        # even for a matrix with no columns)
+        icol = 0
         bi = self._bytes_i
         delta = 4 - bi
         while icol <= cols:
